@@ -275,237 +275,107 @@ func (cm *CMap) parseBfRange(content string) error {
 	return nil
 }
 
-// parseBfRangeSection parses a single beginbfrange/endbfrange section
+// parseBfRangeSection parses a single beginbfrange/endbfrange section.
+// Entries are <start> <end> <dst> or <start> <end> [<d1> <d2> ...]; they are
+// read as a token stream, so any layout works: one entry per line, several per
+// line, no line breaks at all, CR line ends, arrays spanning lines, and array
+// and plain entries mixed in one section.
 func (cm *CMap) parseBfRangeSection(section string) error {
-	// Check for array format first (contains "[")
-	// Array format needs special handling as it can span multiple entries
-	if strings.Contains(section, "[") {
-		return cm.parseBfRangeSectionWithArrays(section)
+	type token struct {
+		kind byte // 'h' hex string, '[' or ']'
+		hex  string
+	}
+	var toks []token
+	for i := 0; i < len(section); {
+		switch section[i] {
+		case '<':
+			end := strings.IndexByte(section[i:], '>')
+			if end < 0 {
+				i = len(section)
+				continue
+			}
+			toks = append(toks, token{'h', section[i+1 : i+end]})
+			i += end + 1
+		case '[', ']':
+			toks = append(toks, token{section[i], ""})
+			i++
+		default:
+			i++
+		}
 	}
 
-	// Simple format: <start> <end> <unicode> triplets
-	// Handle CMaps without newlines by processing all hex strings in groups of 3
-	hexStrings := make([]string, 0)
-	startIdx := 0
-	for {
-		idx := strings.Index(section[startIdx:], "<")
-		if idx == -1 {
-			break
-		}
-		idx += startIdx
-		endIdx := strings.Index(section[idx:], ">")
-		if endIdx == -1 {
-			break
-		}
-		endIdx += idx
-
-		hexStr := section[idx+1 : endIdx]
-		hexStrings = append(hexStrings, hexStr)
-		startIdx = endIdx + 1
-	}
-
-	// Process hex strings in groups of 3: (start, end, unicode)
-	for i := 0; i+2 < len(hexStrings); i += 3 {
-		startHex := hexStrings[i]
-		endHex := hexStrings[i+1]
-		dstHex := hexStrings[i+2]
-
-		if startHex == "" || endHex == "" || dstHex == "" {
+	for i := 0; i+2 < len(toks); {
+		if toks[i].kind != 'h' || toks[i+1].kind != 'h' {
+			i++
 			continue
 		}
-
-		// Track actual byte width from source code hex length
-		srcHexLen := len(startHex)
-		if srcHexLen%2 != 0 {
-			srcHexLen++
+		startHex, endHex := toks[i].hex, toks[i+1].hex
+		switch toks[i+2].kind {
+		case 'h':
+			cm.addBfRange(startHex, endHex, toks[i+2].hex)
+			i += 3
+		case '[':
+			j := i + 3
+			var dsts []string
+			for j < len(toks) && toks[j].kind == 'h' {
+				dsts = append(dsts, toks[j].hex)
+				j++
+			}
+			cm.addBfRangeArray(startHex, endHex, dsts)
+			if j < len(toks) && toks[j].kind == ']' {
+				j++
+			}
+			i = j
+		default:
+			i++
 		}
-		srcByteWidth := srcHexLen / 2
-		if srcByteWidth > cm.actualByteWidth {
-			cm.actualByteWidth = srcByteWidth
-		}
-
-		startCode, err1 := parseHexToUint32(startHex)
-		endCode, err2 := parseHexToUint32(endHex)
-		dstUnicode, err3 := parseHexToUint32(dstHex)
-
-		if err1 != nil || err2 != nil || err3 != nil {
-			continue
-		}
-
-		// Add range mapping
-		cm.rangeMappings = append(cm.rangeMappings, CMapRange{
-			StartCode:    startCode,
-			EndCode:      endCode,
-			StartUnicode: dstUnicode,
-		})
 	}
 
 	return nil
 }
 
-// parseBfRangeSectionWithArrays handles bfrange sections that contain array format entries
-func (cm *CMap) parseBfRangeSectionWithArrays(section string) error {
-	// Split into lines for array handling (arrays may span lines)
-	lines := strings.Split(section, "\n")
-
-	i := 0
-	for i < len(lines) {
-		line := strings.TrimSpace(lines[i])
-		if line == "" {
-			i++
-			continue
-		}
-
-		// Check if this is an array format
-		if strings.Contains(line, "[") {
-			// Array format: <start> <end> [<u1> <u2> ...]
-			// This may span multiple lines
-			fullLine := line
-			for !strings.Contains(fullLine, "]") && i+1 < len(lines) {
-				i++
-				fullLine += " " + strings.TrimSpace(lines[i])
-			}
-			cm.parseBfRangeArray(fullLine)
-			i++
-			continue
-		}
-
-		// Simple format on this line: <start> <end> <unicode>
-		hexStrings := make([]string, 0)
-		startIdx := 0
-		for {
-			idx := strings.Index(line[startIdx:], "<")
-			if idx == -1 {
-				break
-			}
-			idx += startIdx
-			endIdx := strings.Index(line[idx:], ">")
-			if endIdx == -1 {
-				break
-			}
-			endIdx += idx
-
-			hexStr := line[idx+1 : endIdx]
-			hexStrings = append(hexStrings, hexStr)
-			startIdx = endIdx + 1
-		}
-
-		// Process in groups of 3
-		for j := 0; j+2 < len(hexStrings); j += 3 {
-			startHex := hexStrings[j]
-			endHex := hexStrings[j+1]
-			dstHex := hexStrings[j+2]
-
-			if startHex == "" || endHex == "" || dstHex == "" {
-				continue
-			}
-
-			srcHexLen := len(startHex)
-			if srcHexLen%2 != 0 {
-				srcHexLen++
-			}
-			srcByteWidth := srcHexLen / 2
-			if srcByteWidth > cm.actualByteWidth {
-				cm.actualByteWidth = srcByteWidth
-			}
-
-			startCode, err1 := parseHexToUint32(startHex)
-			endCode, err2 := parseHexToUint32(endHex)
-			dstUnicode, err3 := parseHexToUint32(dstHex)
-
-			if err1 != nil || err2 != nil || err3 != nil {
-				continue
-			}
-
-			cm.rangeMappings = append(cm.rangeMappings, CMapRange{
-				StartCode:    startCode,
-				EndCode:      endCode,
-				StartUnicode: dstUnicode,
-			})
-		}
-
-		i++
-	}
-
-	return nil
-}
-
-// parseBfRangeArray parses array format: <start> <end> [<u1> <u2> ...]
-func (cm *CMap) parseBfRangeArray(line string) {
-	// Extract start and end codes
-	// Find hex strings for start/end
-	hexStrings := make([]string, 0)
-	startIdx := 0
-	// Only look before the '['
-	bracketIdx := strings.Index(line, "[")
-	if bracketIdx == -1 {
+// addBfRange records one <start> <end> <dst> entry.
+func (cm *CMap) addBfRange(startHex, endHex, dstHex string) {
+	if startHex == "" || endHex == "" || dstHex == "" {
 		return
 	}
 
-	preBracket := line[:bracketIdx]
-	for {
-		idx := strings.Index(preBracket[startIdx:], "<")
-		if idx == -1 {
-			break
-		}
-		idx += startIdx
-		endIdx := strings.Index(preBracket[idx:], ">")
-		if endIdx == -1 {
-			break
-		}
-		endIdx += idx
-
-		hexStr := preBracket[idx+1 : endIdx]
-		hexStrings = append(hexStrings, hexStr)
-		startIdx = endIdx + 1
+	// Track actual byte width from source code hex length
+	srcHexLen := len(startHex)
+	if srcHexLen%2 != 0 {
+		srcHexLen++
 	}
-
-	if len(hexStrings) < 2 {
-		return
+	srcByteWidth := srcHexLen / 2
+	if srcByteWidth > cm.actualByteWidth {
+		cm.actualByteWidth = srcByteWidth
 	}
-
-	startHex := hexStrings[0]
-	endHex := hexStrings[1]
 
 	startCode, err1 := parseHexToUint32(startHex)
 	endCode, err2 := parseHexToUint32(endHex)
+	dstUnicode, err3 := parseHexToUint32(dstHex)
 
+	if err1 != nil || err2 != nil || err3 != nil {
+		return
+	}
+
+	cm.rangeMappings = append(cm.rangeMappings, CMapRange{
+		StartCode:    startCode,
+		EndCode:      endCode,
+		StartUnicode: dstUnicode,
+	})
+}
+
+// addBfRangeArray records one <start> <end> [<d1> <d2> ...] entry: the codes
+// from start on map to the array elements one by one.
+func (cm *CMap) addBfRangeArray(startHex, endHex string, dsts []string) {
+	startCode, err1 := parseHexToUint32(startHex)
+	endCode, err2 := parseHexToUint32(endHex)
 	if err1 != nil || err2 != nil {
 		return
 	}
 
-	// Extract array content
-	arrayStart := strings.Index(line, "[")
-	arrayEnd := strings.Index(line, "]")
-	if arrayStart == -1 || arrayEnd == -1 {
-		return
-	}
-
-	arrayContent := line[arrayStart+1 : arrayEnd]
-
-	// Parse hex strings in array content
-	arrayHexStrings := make([]string, 0)
-	startIdx = 0
-	for {
-		idx := strings.Index(arrayContent[startIdx:], "<")
-		if idx == -1 {
-			break
-		}
-		idx += startIdx
-		endIdx := strings.Index(arrayContent[idx:], ">")
-		if endIdx == -1 {
-			break
-		}
-		endIdx += idx
-
-		hexStr := arrayContent[idx+1 : endIdx]
-		arrayHexStrings = append(arrayHexStrings, hexStr)
-		startIdx = endIdx + 1
-	}
-
-	// Map each character code to its Unicode value
 	currentCode := startCode
-	for _, hex := range arrayHexStrings {
+	for _, hex := range dsts {
 		if hex == "" {
 			continue
 		}
